@@ -9,5 +9,8 @@ CONSTANTS
   AscPool = {1, 2, 3}
   ProbeMax = 16
   GopNum = 1
-INVARIANTS AllOk EndComplete
+  TJoin = TRUE
+  RJoin = FALSE
+  RMut = "none"
+INVARIANTS AllOk EndComplete RAllOk REndComplete
 VIEW View
